@@ -324,6 +324,7 @@ pub static PROFILE: Profile = Profile {
     liveness: true,
     enumerate: None,
     extra: None,
+    borrow: &[],
     assumptions: &[
         "callbacks never call back into the store except get_state (the property excludes it)",
         "the last client thread always ends with stop() and consumes no iterator, so a consumer running to None is released by a stop that does not depend on it",
